@@ -77,6 +77,7 @@ func init() {
 		ruleNoWriteOpt("geojson encoders", geojsonEncoders, 6, 4, true),
 		ruleNoGlobalBehindParams("geojson decoders", geojsonDecoders, 4),
 		ruleShapeFaults(shapeConfig{label: "geojson constructors", keep: inPkgs("geojson."), floor: 2}),
+		ruleCompose(geojsonMemorySpecs, 30),
 	)
 
 	register("C03",
@@ -88,6 +89,7 @@ func init() {
 		rulePluralDelegates(inMVT, 4),
 		ruleProtoTables,
 		ruleMemberLoops(inMVT, 18, 0),
+		ruleCompose(mvtMarshalSpecs, 6),
 	)
 
 	register("C04",
